@@ -1068,6 +1068,10 @@ example : C17.CovRep (c17C.merge c17D) ([(1, 2), (2, 1), (4, 6)] ++ [(3, 3), (5,
 example : c17C.covarSamp = some (scp [(1, 2), (2, 1), (4, 6)] / ((([(1, 2), (2, 1), (4, 6)] : List (Rat × Rat)).length : Rat) - 1)) :=
   (C17.cov_finishers c17C [(1, 2), (2, 1), (4, 6)] c17RepC).1 (by decide)
 
+-- NONVACUOUS: PysparklingVerif.C17.merge_equal_means
+/-- two partial summaries of a column that is constantly 1/10 (three rows and one row) -/
+example := C17.merge_equal_means (Stats.cov [[(1/10, 1), (1/10, 2), (1/10, 4)]]) (Stats.cov [[(1/10, 3)]]) (by decide +kernel)
+
 -- NONVACUOUS: PysparklingVerif.C17.corr_is_pearson_or_nan
 example : c17C.corrSq = if ssd ([(1, 2), (2, 1), (4, 6)].map (·.1)) * ssd ([(1, 2), (2, 1), (4, 6)].map (·.2)) = 0 then none
     else some (scp [(1, 2), (2, 1), (4, 6)] * scp [(1, 2), (2, 1), (4, 6)] /
